@@ -25,10 +25,15 @@ PARTIAL = ['clause "a well-formed document to which a single unmatched delimiter
            'also a well-formed formula body - a $, \\(, \\[ at top level: "closing delimiter not found" located right after '
            'the token, raised at the end of input); C05_fault_opening_nested_partial / C05_fault_opening_any_suffix_partial '
            '(the same opening delimiters in a nested body whose closing delimiter is not also the new construct\'s: rejected '
-           'AT that closing delimiter). NOT proved (correspondence + oracle on every generated fault case only): } inserted '
-           'in a macro argument that is not the last one or changes the math mode, \\) / \\] inside a formula of the same '
-           'kind, $ as a closing delimiter, { inserted in a group or macro argument, opening delimiters inserted in a $ $ '
-           'formula or (math delimiters) in front of a formula, environments with arguments, insertion points inside an item '
+           'AT that closing delimiter); C05_fault_closing_math_same_partial (a \\) / \\] in a formula of the same kind whose '
+           'remaining body is also well formed outside math mode: the formula\'s own closing delimiter is rejected); '
+           'C05_fault_dollar_in_dollars(_nested)_partial (a $ in a $ $ formula, under the analogous side conditions); '
+           'C05_fault_opening_brace_in_groups(_math)_partial (a { in a chain of nested groups at top level / in a \\( \\) or '
+           '\\[ \\] formula). NOT proved (correspondence + oracle on every generated fault case only): } inserted '
+           'in a macro argument that is not the last one or changes the math mode, { inserted in a macro argument or in a '
+           'group chain inside a $ $ formula or macro argument, opening delimiters inserted in a $ $ formula, every case '
+           'where a side condition of these theorems fails (remaining items that contain a formula and would be read in the '
+           'other math mode, $ directly before $, environments with arguments), insertion points inside an item '
            '(between the tokens of a macro call, inside whitespace), documents outside the core grammar (environments, '
            'optional / star arguments, specials, verbatim). Proved in Coq for every string: '
            'C05_no_other_exception(_run, _any_fuel), C05_result_shape, C05_errors_located(_top), C05_error_line_col',
